@@ -8,4 +8,40 @@ PROPS = {
         "hand_modelled": ["all of src/traits/sig_core.rs, sig_basic.rs, sig_aug.rs, sig_pop.rs, SecretKey::sign, Signature::verify (coq/Model/Core.v, Api.v), tied by the correspondence run"],
         "assumptions": ["hash-to-curve never returns the identity for the tested inputs (the complementary case is the theorem C01_degenerate_hash_rejected)"],
     },
+    "C02": {
+        "rule": 'correspondence: generated cases (honest tuples and every perturbation class of the property, both group assignments, all schemes) through the hooked library and the extracted model, distinct = distinct case lines; search: un-hooked API against expectations from the property text and a reference on the other backend, distinct = distinct (class, input) pairs',
+        "trusted_base": [],
+        "hand_modelled": ['src/traits/sig_core.rs, sig_basic.rs, sig_aug.rs, sig_pop.rs, sig_multi.rs, pk_multi.rs and the wrapper dispatch of src/{secret_key,signature,aggregate_signature,multi_signature,multi_public_key,proof_of_possession}.rs (coq/Model/Core.v, Api.v), tied by the correspondence run'],
+        "assumptions": ["reduction form: 'never verifies under another message/scheme' is proved as: acceptance implies an explicit hash-oracle collision between two different (input, tag) pairs"],
+    },
+    "C05": {
+        "rule": 'correspondence: generated cases (honest tuples and every perturbation class of the property, both group assignments, all schemes) through the hooked library and the extracted model, distinct = distinct case lines; search: un-hooked API against expectations from the property text and a reference on the other backend, distinct = distinct (class, input) pairs',
+        "trusted_base": [],
+        "hand_modelled": ['src/traits/sig_core.rs, sig_basic.rs, sig_aug.rs, sig_pop.rs, sig_multi.rs, pk_multi.rs and the wrapper dispatch of src/{secret_key,signature,aggregate_signature,multi_signature,multi_public_key,proof_of_possession}.rs (coq/Model/Core.v, Api.v), tied by the correspondence run'],
+        "assumptions": ["reduction form for cross-scheme acceptance; tag distinctness by computation on the model's constants, which the correspondence run ties to the code"],
+    },
+    "C06": {
+        "rule": 'correspondence: generated cases (honest tuples and every perturbation class of the property, both group assignments, all schemes) through the hooked library and the extracted model, distinct = distinct case lines; search: un-hooked API against expectations from the property text and a reference on the other backend, distinct = distinct (class, input) pairs',
+        "trusted_base": [],
+        "hand_modelled": ['src/traits/sig_core.rs, sig_basic.rs, sig_aug.rs, sig_pop.rs, sig_multi.rs, pk_multi.rs and the wrapper dispatch of src/{secret_key,signature,aggregate_signature,multi_signature,multi_public_key,proof_of_possession}.rs (coq/Model/Core.v, Api.v), tied by the correspondence run'],
+        "assumptions": ['debug builds: hash points of the listed messages are not the identity (debug_assert in the code)'],
+    },
+    "C07": {
+        "rule": 'correspondence: generated cases (honest tuples and every perturbation class of the property, both group assignments, all schemes) through the hooked library and the extracted model, distinct = distinct case lines; search: un-hooked API against expectations from the property text and a reference on the other backend, distinct = distinct (class, input) pairs',
+        "trusted_base": [],
+        "hand_modelled": ['src/traits/sig_core.rs, sig_basic.rs, sig_aug.rs, sig_pop.rs, sig_multi.rs, pk_multi.rs and the wrapper dispatch of src/{secret_key,signature,aggregate_signature,multi_signature,multi_public_key,proof_of_possession}.rs (coq/Model/Core.v, Api.v), tied by the correspondence run'],
+        "assumptions": [],
+    },
+    "C08": {
+        "rule": 'correspondence: generated cases (honest tuples and every perturbation class of the property, both group assignments, all schemes) through the hooked library and the extracted model, distinct = distinct case lines; search: un-hooked API against expectations from the property text and a reference on the other backend, distinct = distinct (class, input) pairs',
+        "trusted_base": [],
+        "hand_modelled": ['src/traits/sig_core.rs, sig_basic.rs, sig_aug.rs, sig_pop.rs, sig_multi.rs, pk_multi.rs and the wrapper dispatch of src/{secret_key,signature,aggregate_signature,multi_signature,multi_public_key,proof_of_possession}.rs (coq/Model/Core.v, Api.v), tied by the correspondence run', 'vsss-rs 4.3.8 split/combine/interpolate and the [u8; N] share containers (coq/Model/Core.v combine_shares_with, Api.v sk_split), tied by the correspondence run'],
+        "assumptions": ['EmbedLaw: one-byte identifiers 1..255 are distinct non-zero field elements (characteristic > 255)', 'rng scalars drawn for coefficients are non-zero (probability 1 - 2^-255)'],
+    },
+    "C09": {
+        "rule": 'correspondence: generated cases (honest tuples and every perturbation class of the property, both group assignments, all schemes) through the hooked library and the extracted model, distinct = distinct case lines; search: un-hooked API against expectations from the property text and a reference on the other backend, distinct = distinct (class, input) pairs',
+        "trusted_base": [],
+        "hand_modelled": ['src/traits/sig_core.rs, sig_basic.rs, sig_aug.rs, sig_pop.rs, sig_multi.rs, pk_multi.rs and the wrapper dispatch of src/{secret_key,signature,aggregate_signature,multi_signature,multi_public_key,proof_of_possession}.rs (coq/Model/Core.v, Api.v), tied by the correspondence run'],
+        "assumptions": ["reduction form for 'rejected for every other key'"],
+    },
 }
